@@ -7,6 +7,54 @@
   (Lemmas/NearRange): the -c run chose the near form from the distance in its own hybrid layout, every
   later pass brings that distance closer, and `corr_prefix` (Lemmas/NearAlign) identifies the source item
   of the near `jal` with that of the far pair.
+
+  EVERY HYPOTHESIS, spelled out (`C12Hyps H items` = `GrowHyps` + `LitOK` + `Neg1OK` + `SrcOK` for every item),
+  and whether a counterexample FORCES it or it is merely CONVENIENT for the proof.  For source text the hook
+  hypotheses hold and the parser-shaped ones are automatic (Props/TextCorollaries).
+
+  about the hooks — no restriction for the text front end (`Text.textHooks_litOK/neg1OK/offsetHook`):
+    * `LitOK`   the numerals 0 … 31 evaluate to themselves (the rebuilt shift amounts of c.slli / c.srli / c.srai);
+    * `Neg1OK`  `-1` evaluates to −1 (the expansion of `not`);
+    * `OffsetHook`  `%offset r` parses to `.offset r`.
+
+  about the program:
+    * `AlignFreeTransfers`: no `align` between a branch / jump / call / tail and its target label.
+          FORCED — KF-F: an `align` in between can make the distance GROW when code before it shrinks
+          (Props/C12TwoRun).
+    * `SrcOK`, instructions and pseudo-instructions: a pc-relative target is a LABEL that no constant shadows.
+          FORCED — KF-G: `K = 4106 ; nop ×3 ; beq x1, x2, K` assembles without `-c` and is refused with it
+          (`C12.branch_to_constant_grows`, `C12.statement2_false`; confirmed on the real assembler).
+          `CallTargetsNotConstants` (GrowHyps) is the same condition for call / tail (same mechanism; no
+          separate formal counterexample).
+    * `SrcOK`, instructions: every OTHER immediate is label-free (`ImmLabelFree`: a literal, constant arithmetic,
+          `%hi/%lo` of those).  Forced in general, but only ON PAPER (labels move down with `-c`, so
+          `addi a0, x0, 4094 - L` can leave the 12-bit range); for a bare `L` / `%lo(L)` it is merely convenient.
+          No formal counterexample.
+    * `SrcOK`, data (`pack`, `db/dh/dw/dd`): the immediate is label-free.  CONVENIENT for a bare `dw L` (a label
+          value only decreases and stays in range); on paper forced for expressions such as `db 300 - L`.
+          No formal counterexample.
+    * `LiLiteral` (GrowHyps): the operand of every `li` is label-free.  FORCED for "nothing grows" (C20) — KF-A5,
+          `C20.progA5`: `li sp, 2051 − L` takes its long form with `-c` and the output GROWS; C12 uses it only
+          through that (a grown `li` can push a branch out of range; not formalized for C12 itself).
+    * `SrcOK`, instructions: `ins.wellKinded` — the item class is the one the encoder table lists for the mnemonic,
+          a 32-bit class: there is NO HAND-WRITTEN `c.*` INSTRUCTION anywhere in the program.  CONVENIENT, not
+          forced: a hand-written compressed instruction is simply kept by both runs; the proof classifies items
+          as "32-bit original" / "decided by a pass" and has no third class.  For the 32-bit classes the parser
+          always builds well-kinded items (`Text.parseItem_wellKinded`), so for source text this says exactly
+          "no `c.*` mnemonic in the source".
+    * `SrcOK`, instructions: `ins.isAuipcJump = false` — the mark the assembler itself puts on the `jalr` of an
+          expanded far call / tail.  AUTOMATIC for parsed text (`Text.parseItem_wellKinded`); a restriction only
+          on hand-built item lists.
+    * `NonNeg` (GrowHyps): no item has a negative size (`include_bytes f -5`).  CONVENIENT (the layout lemmas
+          are stated for non-negative sizes); not forced.
+    * `AlignsPositive` (GrowHyps): every `align a` has `1 ≤ a`.  CONVENIENT: `align 0` makes either run fail
+          (ZeroDivisionError), and a negative alignment is outside what the model claims to describe (it pads
+          nothing where the position happens to be a multiple, and is `unsupported` elsewhere); excluded rather
+          than analysed, not forced by a counterexample.
+    * `small` (GrowHyps): the pessimistic program size is below 2^31.  CONVENIENT: it keeps the model's integer
+          distances inside the range where `%hi/%lo` splitting is exact; not forced by any counterexample.
+  So "every hypothesis is forced by a counterexample" would OVERCLAIM: forced are `AlignFreeTransfers` (KF-F),
+  targets-are-labels (KF-G) and — for C20 — `LiLiteral` (KF-A5); the rest is convenient or automatic for text.
 -/
 import BB.Lemmas.SuccTwoRun2
 import BB.Props.C12Program
